@@ -13,7 +13,8 @@ Record observation := mkObs {
   o_cached   : bool;          (* resp.Bytes() != nil *)
   o_result   : bool;          (* resp.SuccessResult() != nil *)
   o_error    : ebind;         (* resp.ErrorResult(): nil / the request's target / an instance of the common type *)
-  o_log      : list event
+  o_logs     : list (list event);   (* invocation log, grouped by Request.RetryAttempt at the time of the call *)
+  o_hooks    : nat                  (* invocations of the client's error hook *)
 }.
 
 Inductive c18_case :=
@@ -36,7 +37,7 @@ Definition ebind_eqb (a b : ebind) : bool :=
 Definition event_eqb (a b : event) : bool :=
   match a, b with
   | EvUd i, EvUd j | EvWIn i, EvWIn j | EvWOut i, EvWOut j | EvCli i, EvCli j | EvReq i, EvReq j => Nat.eqb i j
-  | EvSend, EvSend | EvCond, EvCond | EvHook, EvHook | EvOnError, EvOnError => true
+  | EvSend, EvSend | EvCond, EvCond | EvHook, EvHook => true
   | _, _ => false
   end.
 
@@ -55,9 +56,9 @@ Definition c18_check (c : c18_case) : bool :=
   | ProgCase p o =>
       match run Fixed p with
       | OutOfFuel => false
-      | Panicked e l =>
-          o_panic o && opt_z_eqb (Some e) (o_ret_err o) && list_eqb event_eqb l (o_log o)
-      | Returned ro e l =>
+      | Panicked e ls h =>
+          o_panic o && opt_z_eqb (Some e) (o_ret_err o) && list_eqb (list_eqb event_eqb) ls (o_logs o) && Nat.eqb h (o_hooks o)
+      | Returned ro e ls h =>
           negb (o_panic o) &&
           match ro with
           | None => o_resp_nil o
@@ -66,6 +67,6 @@ Definition c18_check (c : c18_case) : bool :=
               resp_matches r (o_present o) (o_status o) (o_resp_err o) (o_cached o) (o_result o) (o_error o)
           end &&
           opt_z_eqb e (o_ret_err o) &&
-          list_eqb event_eqb l (o_log o)
+          list_eqb (list_eqb event_eqb) ls (o_logs o) && Nat.eqb h (o_hooks o)
       end
   end.
